@@ -505,6 +505,21 @@ func ruleP6(c *Ctx) {
 		coll, _ := rangeOf(ci.Common().Args[0])
 		if coll != nil && m.ap(coll).PathString() == "plugins" && inLoop(ci.Block()) {
 			okAll = true
+			// for every element: nothing but the loop itself decides whether stop is called
+			for _, cd := range controls(ci.Block()) {
+				n := normCond(cd)
+				if bo, ok := n.V.(*ssa.BinOp); ok && bo.Op == token.LSS {
+					continue // i < len(plugins)
+				}
+				if ex, ok := n.V.(*ssa.Extract); ok {
+					if _, isNext := ex.Tuple.(*ssa.Next); isNext {
+						continue
+					}
+				}
+				if canReach(ci.Block(), cd.If.Block()) {
+					okAll = false // a condition inside the loop: some plugins are skipped
+				}
+			}
 		}
 	}
 	c.ok("P6", "stopPlugins", sp.Pos(), okAll, "stopPlugins stops every plugin in the list", "stopPlugins does not call stop for every element of r.plugins")
